@@ -73,6 +73,7 @@ func vfC20Run(t *testing.T, c *vfc20.Case) *vfc20.Run {
 	synctest.Test(t, func(t *testing.T) {
 		vfc20.SettleClock()
 		tg := vfdoubles.NewTarget()
+		tg.XGroupKey = true
 		tg.SetNow(time.Now().UnixMilli())
 		for _, p := range c.Pre {
 			vfc20.SeedPre(tg, p)
@@ -132,6 +133,7 @@ func vfC20RunSend(t *testing.T, c *vfc20.Case) *vfc20.Run {
 	synctest.Test(t, func(t *testing.T) {
 		vfc20.SettleClock()
 		tg := vfdoubles.NewTarget()
+		tg.XGroupKey = true
 		tg.SetNow(time.Now().UnixMilli())
 		for _, p := range c.Pre {
 			vfc20.SeedPre(tg, p)
